@@ -3,7 +3,7 @@
    request arrivals, loop messages, bucket reads, failures, evictions, replacements and deletions. *)
 From Coq Require Import NArith List.
 Import ListNotations.
-From PM Require Import Model.Server Proofs.Server Proofs.ServerExec.
+From PM Require Import Model.Server Proofs.Server Proofs.ServerExec Proofs.ServerHarmless Proofs.ServerSettled Proofs.ServerTiming.
 Open Scope N_scope.
 
 Section C08.
@@ -34,9 +34,74 @@ Proof. exact (reach_inv root_off_nz leaf_base_nz). Qed.
 (* the executable stepper that is validated against the real server only produces reachable states *)
 Theorem C08_exec_sound : forall ls s', run_labels ls init = Some s' -> reach s'.
 Proof. intros ls s' H. eapply run_reach; [apply reach_init|exact H]. Qed.
+
+(* timing of a 200: the list of completed 200s grows only by a conditional read (the last step of a tile, metadata or TileJSON request),
+   executed at an instant at which the bucket's current version of the archive carries the tag of the version that supplied the
+   header and the directories - with C08_single_version: that version IS the current one at that instant, which lies between the
+   request's start and its end.  No other step of the system (cache hits, responses, retries, evictions, faults) ever answers data. *)
+Theorem C08_200_only_while_current : forall s l s', exec s l = Some s' ->
+  oks s' = oks s \/
+  exists rid q a hv o l0, l = LTileDo rid /\ get_handler rid (handlers s) = Some (HWaitTile q a hv o l0) /\
+    exists v, cur s (t_name q) = Some v /\ vtag v = vtag hv /\ oks s' = (rid, q, R200 v (rbase hv q + o) l0) :: oks s.
+Proof. exact ok_only_by_current_read. Qed.
+
+(* the property's second sentence: a replacement that completed before a request began never makes it fail.
+   [sa]: any reachable state in which archive n exists and nothing failed is queued for it (e.g. right after it first appeared).
+   [ls0]: any history from there - requests for any archive, loop messages, bucket reads, evictions, replacements of n (any number) and of
+   other archives, faults on other archives - in which n is not deleted and no fault is injected into reads of n.
+   Then the request [rid] for n begins; while it runs ([ls], any interleaving again) n is not replaced or deleted and no fault is injected
+   into reads of n or into this request.  Whatever the cache and the queues hold of older versions of n, the request completes with the
+   answer of one version of n - never 5xx: a stale header or directory costs exactly the one retry the handler has. *)
+Theorem C08_old_replacement_harmless : forall n sa ls0 s0 vc rid q ls s,
+  reach sa -> settled n sa ->
+  run_labels ls0 sa = Some s0 -> Forall (clean n) ls0 ->
+  cur s0 n = Some vc -> (forall q' r', ~ In (rid, q', r') (dones s0)) -> t_name q = n ->
+  run_labels (LStart rid q :: ls) s0 = Some s -> Forall (allowed n rid) ls ->
+  forall r, In (rid, q, r) (dones s) -> (exists v, In (n, v) (hist s) /\ r = answer v q) /\ r <> R500.
+Proof.
+  intros n sa ls0 s0 vc rid q ls s Ra Sa Hrun0 Hcl Hc Hfresh Hn Hrun Hal r Hin.
+  assert (R0: reach s0) by (eapply run_reach; eauto).
+  pose proof (run_settled root_off_nz leaf_base_nz n ls0 sa s0 Ra Sa Hcl Hrun0) as S0.
+  eapply (harmless root_off_nz leaf_base_nz n vc rid s0 q ls s); eauto.
+  apply settled_B2; assumption.
+Qed.
 End C08.
+
+(* non-vacuity: a server whose cache holds the header and root directory of version 1 of archive 0 when version 2 has replaced it;
+   the next request is handed the stale header, walks the stale directory, has its tile read refused, purges, refetches and
+   answers version 2's tile *)
+Module C08Example.
+#[local] Instance ExV : Version := {
+  ver := N; vtag := fun v => v; zoom_ok := fun _ _ => true; ext_ok := fun _ _ => true;
+  root := fun _ => (1, 1); dir_lookup := fun v _ _ _ => LTile 0 v; leaf_base := fun _ => 1; tile_base := fun _ => 10;
+  meta_off := fun _ => 2; meta_len := fun _ => 1 }.
+Definition q0 := mkQ 0 0 0 0 0.
+Definition k1 := mkK 0 1 1 1.
+Definition k2 := mkK 0 2 1 1.
+Definition before : list label :=
+  [LStart 0 q0; LLoopReq 0; LFetchDo (hdrkey 0); LLoopResp (mkK 0 0 1 1); LLoopResp (hdrkey 0); LLoopReq 1; LFetchDo k1; LLoopResp k1; LTileDo 0;
+   LReplace 0 2].
+Definition during : list label :=
+  [LLoopReq 4; LLoopReq 5; LTileDo 1; LLoopReq 7; LFetchDo (hdrkey 0); LLoopResp (mkK 0 0 1 1); LLoopResp (hdrkey 0); LLoopReq 8; LFetchDo k2; LLoopResp k2; LTileDo 1].
+Example C08_harmless_example :
+  exists sa s0 s,
+    run_labels [LReplace 0 1] init = Some sa /\ settled 0 sa /\
+    run_labels before sa = Some s0 /\ Forall (clean 0) before /\ cur s0 0 = Some 2 /\
+    (exists cv, In (hdrkey 0, cv) (cache s0) /\ cv_pay cv = Some (PHeader 1)) /\        (* the cache still holds version 1's header *)
+    run_labels (LStart 1 q0 :: during) s0 = Some s /\ Forall (allowed 0 1) during /\
+    dones s = [(1%nat, q0, R200 2 10 2); (0%nat, q0, R200 1 10 1)].
+Proof.
+  eexists _, _, _. split; [vm_compute; reflexivity|]. split.
+  { split; [cbn; discriminate|]. intros k cv []. }
+  split; [vm_compute; reflexivity|]. split; [repeat constructor; cbn; discriminate|]. split; [reflexivity|].
+  split; [eexists; split; [right; left; reflexivity|reflexivity]|].
+  split; [vm_compute; reflexivity|]. split; [repeat constructor; cbn; try discriminate; auto|]. reflexivity.
+Qed.
+End C08Example.
 
 Print Assumptions C08_single_version.
 Print Assumptions C08_single_version_metadata.
 Print Assumptions C08_invariant.
 Print Assumptions C08_exec_sound.
+Print Assumptions C08_200_only_while_current.
+Print Assumptions C08_old_replacement_harmless.
